@@ -570,10 +570,12 @@ func runRecovered(m mode, i int64) (class string) {
 }
 
 var hexRe = regexp.MustCompile(`0x[0-9a-f]+`)
+var posRe = regexp.MustCompile(`\.star:[0-9]+:[0-9]+`)
 var numRe = regexp.MustCompile(`[0-9]{3,}`)
 
 func normPanic(s string) string {
 	s = hexRe.ReplaceAllString(s, "0x?")
+	s = posRe.ReplaceAllString(s, ".star:L:C")
 	s = numRe.ReplaceAllString(s, "N")
 	if len(s) > 160 {
 		s = s[:160]
